@@ -230,6 +230,13 @@ func run(c Case) pbt.Verdict {
 				continue
 			}
 			if !b.complete {
+				// An upload in progress (possibly of a re-created key) stays, and stays an upload.
+				if !inStore {
+					return fmt.Sprintf("%s: blob %s was created and not deleted, but it is gone before it could be marked complete (Has=false)", where, name)
+				}
+				if _, asComplete := st.ScopeComplete().Has(name); asComplete {
+					return fmt.Sprintf("%s: blob %s was never marked complete but the store shows it as a completed blob", where, name)
+				}
 				continue
 			}
 			if !inStore {
@@ -455,7 +462,7 @@ func run(c Case) pbt.Verdict {
 func TestProp(t *testing.T) {
 	pbt.Main(t, pbt.Spec{
 		ID: "C09",
-		Rule: "rapid generates histories over 3 keys on a tiered store (disk capacity 1 MiB so disk never evicts; memory capacity 2-3 blobs): client ops {create+write, complete, set/delete metadata, delete, read, hold (open a handle and read half) / resume (read the rest through the held handle, possibly after the blob left the memory tier), memory pressure (a filler as large as the memory tier is created and deleted)} interleaved with 'advance the flusher to its next scheduling point' steps (and an occasional 'run the flusher to quiescence'); background workers are stopped and the harness runs each flush on a goroutine that parks at 12 lock-free scheduling points (verif hook). Model: key -> absent | incomplete | complete{bytes, metadata}; after every client op and again after quiescence + memory flood: completed blobs are present, read back exactly, and metadata equals the last successful update; absent keys are invisible and can be created. non-trivial = a client op on key k executes while the flusher is parked inside a flush of k; distinct by case hash",
+		Rule: "rapid generates histories over 3 keys on a tiered store (disk capacity 1 MiB so disk never evicts; memory capacity 2-3 blobs): client ops {create+write, complete, set/delete metadata, delete, read, hold (open a handle and read half) / resume (read the rest through the held handle, possibly after the blob left the memory tier), memory pressure (a filler as large as the memory tier is created and deleted)} interleaved with 'advance the flusher to its next scheduling point' steps (and an occasional 'run the flusher to quiescence'); background workers are stopped and the harness runs each flush on a goroutine that parks at 12 lock-free scheduling points (verif hook). Model: key -> absent | incomplete | complete{bytes, metadata}; after every client op and again after quiescence + memory flood: completed blobs are present, read back exactly, and metadata equals the last successful update; blobs created and not yet completed are present and not shown as completed; absent keys are invisible and can be created. non-trivial = a client op on key k executes while the flusher is parked inside a flush of k; distinct by case hash",
 		Assumptions: []string{
 			"interleavings are owned at the granularity of the hook's scheduling points (all outside critical sections); one flush worker",
 			"disk never evicts in this configuration, so any disappearance of a completed blob is a loss",
